@@ -37,6 +37,7 @@ func main() {
 	outAbs, _ := filepath.Abs(*out)
 	rewrites := map[string]map[string]string{}
 	adds := map[string][]string{}
+	var maps [][2]string
 	var lines []string
 	for _, c := range strings.Split(*conf, ",") {
 		if c == "" {
@@ -65,6 +66,8 @@ func main() {
 			rewrites[fs[1]][fs[2]] = fs[3]
 		case "add":
 			adds[fs[1]] = append(adds[fs[1]], fs[2])
+		case "map":
+			maps = append(maps, [2]string{fs[1], fs[2]})
 		default:
 			panic("bad conf line: " + line)
 		}
@@ -140,6 +143,9 @@ func main() {
 			abs, _ := filepath.Abs(fn)
 			replace[filepath.Join(repo, pkg, fmt.Sprintf("zz_verif_export_%d.go", i))] = abs
 		}
+	}
+	for _, m := range maps {
+		replace[m[0]] = srcOf(m[1])
 	}
 	blob, _ := json.MarshalIndent(map[string]any{"Replace": replace}, "", " ")
 	if err := os.WriteFile(filepath.Join(outAbs, "overlay.json"), blob, 0o644); err != nil {
